@@ -122,6 +122,13 @@ CHECKS = {
             "tables on generated objects on all six hosts; make_std_api(v) reproduces v's dis data for 2.7, 3.6-3.13.",
             "host dis is ground truth; CACHE entries filtered; 3.13 exception-range labels follow C04's definition",
             "DESIGN.md §4 C20"),
+    "C18": ("Hypothesis RuleBasedStateMachine over public operations (load_module, disassemble_file x 6 formats, "
+            "get_opcode, make_std_api + query, Bytecode iteration, marsh.dumps/loads) on a pool of corpus files of every "
+            "version; per-step invariant against the same operation done first in a pristine (forked / new) process",
+            "After every step of generated histories the result equals the fresh-process result, a repeat gives the "
+            "same result and the digests of all opcode tables are unchanged.",
+            "exceptions are results (type + message); addresses normalised; set element order not compared",
+            "DESIGN.md §4 C18"),
 }
 
 NOT_YET = {}
